@@ -733,6 +733,7 @@ class NetworkGraph(AbstractBaseIR):
         source_vars, args = {}, {}
         eqs, in_vars = [], []
         covered = set()  # entries of a vectorized target variable that receive at least one edge
+        names = {tvar}  # names that are taken inside the edge operator
         for i, (weight, sidx, tidx, (snode, sop, svar), edge_ir, edge_var_map) in \
                 enumerate(zip(weights, source_indices, target_indices, sources, edge_irs, edge_var_maps)):
 
@@ -752,6 +753,16 @@ class NetworkGraph(AbstractBaseIR):
                 s_str = svar
                 sidx_str = 'source_idx'
                 tidx_str = 'target_idx'
+
+            # the operands of the edge operator need names that differ from one another and from the target variable
+            # (e.g. for an edge between equally named variables, or an edge from/to a variable called `weight`)
+            operands = []
+            for name in (t_str, w_str, s_str, sidx_str, tidx_str)[0 if multiple_inputs else 1:]:
+                while name in names:
+                    name = f"{name}_"
+                names.add(name)
+                operands.append(name)
+            t_str, w_str, s_str, sidx_str, tidx_str = operands if multiple_inputs else [tvar] + operands
 
             # case 0g: global edge — weight is a 0-d (scalar) array (used by
             # Connectivity for uniform all-to-all coupling). Realized as a reduction
@@ -984,6 +995,8 @@ class NetworkGraph(AbstractBaseIR):
                     tval['value'] = default
             elif multiple_inputs and np.any(default[uncovered]):
                 d_str = f'{tvar}_in{len(in_vars)}'
+                while d_str in names:
+                    d_str = f"{d_str}_"
                 default[sorted(covered)] = 0.0
                 args[d_str] = {'vtype': 'constant', 'value': default, 'dtype': tval['dtype'], 'shape': (tsize,)}
                 in_vars.append(d_str)
